@@ -55,6 +55,7 @@ class FuncSig:
         self.lean_name = lean_name
         self.ok = False
         self.reason = None
+        self.calls = set()
 
 
 class Ctx:
@@ -104,6 +105,7 @@ class FuncTranslator:
         self.lambda_ctr = 0
         self.loop_depth = 0
         self.uses_today = False
+        self.tuple_lits = {}
 
     # ------------------------------------------------------------------ helpers
     def fresh(self, base):
@@ -175,6 +177,9 @@ class FuncTranslator:
                 u = unify(u, p)
             if u == 'any':
                 raise Unsupported('iteration over heterogeneous tuple')
+            items = self.tuple_lits.get(v)
+            if items is not None:
+                return '([%s] : List %s)' % (', '.join(self.coerce(a, b, u) for a, b in items), par(lean_type(u))), u
             return '(Py.tupleToList %s : List %s)' % (par(v), par(lean_type(u))), u
         if is_dict(t):
             k, _ = dict_parts(t)
@@ -227,7 +232,9 @@ class FuncTranslator:
             return ('[]', 'list[?]')
         if len(items) == 1:
             return ('[%s]' % items[0][0], t_list(items[0][1]))
-        return ('(' + ', '.join(v for v, _ in items) + ')', t_tuple([t for _, t in items]))
+        code = '(' + ', '.join(v for v, _ in items) + ')'
+        self.tuple_lits[code] = items
+        return (code, t_tuple([t for _, t in items]))
 
     def e_List(self, e):
         items = [self.expr(x) for x in e.elts]
@@ -985,7 +992,7 @@ class FuncTranslator:
             return ('(← Py.mkDate %s %s %s)' % (y, mo, d), 'date')
         if name in ('datetime.date.today', 'datetime.datetime.now', 'datetime.datetime.today', 'datetime.now', 'datetime.today') and not args:
             self.uses_today = True
-            return ('today', 'date')
+            return ('today__', 'date')
         if name == 'calendar.monthrange' and len(args) == 2:
             y, mo = [self.expr_int(a) for a in args]
             return ('((0 : Int), (← Py.monthrangeDays %s %s))' % (y, mo), 'tuple[int,int]')
@@ -1349,7 +1356,7 @@ class FuncTranslator:
             body.append('  return %s' % self.coerce('()', 'none', rt))
         params = []
         if self.sig.needs_today:
-            params.append('(today : Date)')
+            params.append('(today__ : Date)')
         params += ['(%s : %s)' % (mangle(n), lean_type(t)) for n, t in zip(self.sig.params, self.sig.ptypes)]
         headline = 'def %s %s : R %s := do' % (mangle(self.fn.name), ' '.join(params), par(lean_type(rt)))
         if self.uses_today and not self.sig.needs_today:
